@@ -82,6 +82,14 @@ def gen(ctx):
                 nm = pre + core_ + suf
                 if 1 <= len(nm) <= 63:
                     yield Case("RT", spec_cr(rng, nm), tags=("name-edge-bytes",))
+    # a multi-byte character lying across every byte offset of the name (round 6: a log line sliced the name at byte 24)
+    for _ch in ("\u00e9", "\u20ac", "\U0001F600"):
+        _cb = _ch.encode()
+        for _off in range(0, 64 - len(_cb)):
+            for _tail in (0, 63 - _off - len(_cb)):
+                nm = b"a" * _off + _cb + b"z" * _tail
+                if 1 <= len(nm) <= 63:
+                    yield Case("RT", spec_cr(rng, nm), tags=("name-multibyte-at-every-offset",))
     for nm in (b"RENO", b"Reno", b"reno", b"ren\xc3\xb6", b"reno\xcc\x88"):
         yield Case("RT", spec_cr(rng, nm), tags=("name-edge-bytes",))
     yield Case("RT", spec_cr(rng, b"a\x00b"), tags=("name-nul",))
